@@ -161,7 +161,7 @@ def correspond(ctx, scale):
         for wi in range(nwalk):
             mod = f['mk']()
             dist['walks'] += 1
-            alphabet = ['train', 'train', 'eval', 'eval'] + (['frozen', 'frozen'] if f['freeze'] else []) + (['decode'] if f['decode'] else [])
+            alphabet = ['train', 'train', 'eval', 'eval'] + (['frozen', 'frozen', 'ce-eval', 'ce-frozen'] if f['freeze'] else []) + (['decode'] if f['decode'] else [])
             ops = [rng.choice(alphabet) for _ in range(rng.choice([5, 8, 12]))]
             if wi % 2 == 1:
                 ops = ['train', 'train'] + ops
@@ -186,6 +186,18 @@ def correspond(ctx, scale):
                             continue
                         f['decode'](mod, last_idx)
                         dist['decode_ops'] += 1
+                        ret = None
+                    elif op in ('ce-eval', 'ce-frozen'):
+                        # per-call option `indices=` (cross-entropy to target codes) in evaluation mode / with a frozen codebook: a pure call as well
+                        if last_idx is None or last_idx.shape[0] != x.shape[0]:
+                            continue
+                        mod.train(op == 'ce-frozen')
+                        torch.manual_seed(seed)
+                        try:
+                            mod(x, indices=last_idx, **({'freeze_codebook': True} if op == 'ce-frozen' else {}))
+                        except (TypeError, AssertionError, RuntimeError):
+                            continue        # option not supported in this configuration (e.g. channel-first ResidualVQ rejects target indices): not a silent change
+                        dist['ce_target_calls'] = dist.get('ce_target_calls', 0) + 1
                         ret = None
                     else:
                         recs = None
@@ -231,7 +243,7 @@ def correspond(ctx, scale):
                         meta.append(dict(name=f['name'], op=op, ops=list(trace)))
                         dist['model_cases'] += 1
                 # repeat: same input, same state -> same result (deterministic configurations; eval always)
-                if op != 'decode' and (op == 'eval' or not f['stochastic']) and not first_init:
+                if op not in ('decode', 'ce-eval', 'ce-frozen') and (op == 'eval' or not f['stochastic']) and not first_init:
                     try:
                         r1 = flat_out(ret)
                         r2 = flat_out(call(f, mod, x, op, seed + 1))
